@@ -37,7 +37,7 @@ ASSUMPTIONS = [
 
 READ = 16384
 DTYPES = [None, "int16", "int32", "float64", "uint8", "int8"]
-ACCESS = ["path", "path_forced", "bytesio", "file", "tmpfile", "unnamed", "barename"]
+ACCESS = ["path", "path_forced", "bytesio", "file", "tmpfile", "unnamed", "barename", "gzip"]
 RATES = [8000, 16000, 20000, 44100, 1]
 
 _selftested = []
@@ -154,6 +154,15 @@ def read_with(access, data, dtype, stem="utt"):
                 elif access == "file":
                     with open(path, "rb") as f:
                         out = read_signal(f, dtype=np_dtype, force_as="sph")
+                elif access == "gzip":
+                    # a decompressing stream (a corpus kept as .sph.gz): it has a fileno(), but that descriptor is the
+                    # COMPRESSED file - only read() yields the SPHERE bytes
+                    import gzip
+
+                    with gzip.open(path + ".gz", "wb") as g:
+                        g.write(data)
+                    with gzip.open(path + ".gz", "rb") as g:
+                        out = read_signal(g, dtype=np_dtype, force_as="sph")
                 elif access == "barename":
                     # the file name alone, relative to the current directory
                     old = os.getcwd()
@@ -335,7 +344,7 @@ def _hdr():
 @st.composite
 def _file_cases(draw, truncated=False):
     coding = draw(st.sampled_from(sw.CODINGS))
-    c = draw(st.sampled_from([1, 1, 1, 2, 3, 4, 5, 6, 7, 8] if truncated else [1, 2, 3, 3, 4, 5, 5, 6, 6, 7, 7, 8, 17, 64]))
+    c = draw(st.sampled_from([1, 1, 1, 2, 3, 4, 5, 6, 7, 8] if truncated else [1, 2, 3, 3, 4, 5, 5, 6, 6, 7, 7, 8] * 3 + [17, 64, 17, 64, 8193, 16400]))
     fb = sw.frame_bytes(coding, c)
     mode = draw(st.sampled_from(["small", "any", "near", "near", "near", "near"] * 6 + ["huge"]))
     if mode == "huge":
